@@ -41,3 +41,9 @@ func VerifC10_RouteBody4() {
 	zzLexParse("@ GET /x {\n" + zzverif.StringFrom("body", 4, zzDelims) + "\n}\n")
 	zzverif.Reach("src")
 }
+
+// the end of the input inside a string escape: "\x4", "\u00e", "\" ...
+func VerifC10_EscapeTail() {
+	zzLexParse("@ GET /x {\n  $ s = \"a\\" + zzverif.StringFrom("tail", 4, "xu01aFg\"\\\n"))
+	zzverif.Reach("src")
+}
